@@ -185,7 +185,7 @@ class LaplaceTruncated(Laplace, TruncationAndFoldingMixin):
     def bias(self, value):
         self._check_all(value)
 
-        shape = self.sensitivity / self.epsilon
+        shape = self.sensitivity / (self.epsilon - np.log(1 - self.delta))
 
         return shape / 2 * (np.exp((self.lower - value) / shape) - np.exp((value - self.upper) / shape))
 
@@ -193,7 +193,7 @@ class LaplaceTruncated(Laplace, TruncationAndFoldingMixin):
     def variance(self, value):
         self._check_all(value)
 
-        shape = self.sensitivity / self.epsilon
+        shape = self.sensitivity / (self.epsilon - np.log(1 - self.delta))
 
         variance = value ** 2 + shape * (self.lower * np.exp((self.lower - value) / shape)
                                          - self.upper * np.exp((value - self.upper) / shape))
@@ -254,7 +254,7 @@ class LaplaceFolded(Laplace, TruncationAndFoldingMixin):
     def bias(self, value):
         self._check_all(value)
 
-        shape = self.sensitivity / self.epsilon
+        shape = self.sensitivity / (self.epsilon - np.log(1 - self.delta))
 
         bias = shape * (np.exp((self.lower + self.upper - 2 * value) / shape) - 1)
         bias /= np.exp((self.lower - value) / shape) + np.exp((self.upper - value) / shape)
